@@ -10,6 +10,7 @@ import (
 	"sort"
 	"strings"
 	"syscall"
+	"time"
 )
 
 // C18 — every matching log path is tailed, once.
@@ -181,6 +182,36 @@ func c18Run(r *runCtx, id string, f []string) {
 					}
 				}
 			}
+		case "pp":
+			// the pattern pollers run and the streams have not woken yet: whatever is tailed stays
+			// tailed (a stream only notices at its next wake that its log has gone), eligible files
+			// that have no stream get one
+			set := map[string]bool{}
+			for _, t := range env.ta.VerifStreamPaths() {
+				set[rel(t)] = true
+			}
+			for _, w := range eligible() {
+				set[w] = true
+			}
+			var want []string
+			for w := range set {
+				want = append(want, w)
+			}
+			sort.Strings(want)
+			env.pw.wakeAll()
+			if !env.pw.waitWaiting(len(tpats), 10*time.Second) {
+				env.stalled = "pattern poll did not come back to Wake()"
+			} else if len(want) != env.alive {
+				if !env.sw.waitWaiting(len(want), 10*time.Second) {
+					env.stalled = "a new stream did not start after the pattern poll"
+				}
+				env.alive = len(want)
+			}
+			got := tailed()
+			obs = append(obs, "T["+strings.Join(got, ",")+"]")
+			if env.stalled == "" && strings.Join(got, ",") != strings.Join(want, ",") {
+				bad = append(bad, fmt.Sprintf("step %d (patterns polled, streams not yet woken): tailed [%s], expected [%s]", step, strings.Join(got, ","), strings.Join(want, ",")))
+			}
 		case "p":
 			// streams whose path still names something they can hold open survive the wake: a regular
 			// file, or a device that has taken the log's place (a stream is never started on one, but
@@ -294,6 +325,12 @@ func init() {
 					}
 				}
 			}
+			// a log is removed and comes back while only the pattern pollers run (its stream has not
+			// looked yet): still one stream, every line once
+			for _, ps := range patSets {
+				emit(ps, "-", []string{"cf:d1/a.log", "cf:d1/b.log", "p", "ap:d1/a.log:" + hx("one"), "rm:d1/a.log", "pp", "cf:d1/a.log", "pp", "pp",
+					"p", "ap:d1/a.log:" + hx("two"), "ap:d1/b.log:" + hx("three"), "p", "rm:d1/b.log", "pp", "p", "cf:d1/b.log", "pp", "ap:d1/b.log:" + hx("four"), "p"})
+			}
 			// names with characters that mean something in a URL: they are names like any other
 			for _, ps := range [][]string{{"d1/*.log"}, {"d1/*", "r:d1/*.log"}} {
 				emit(ps, "-", []string{"cf:d1/a#b.log", "cf:d1/q%zz.log", "cf:d1/p%41.log", "cf:d1/pA.log", "cf:d1/a.log", "cf:d1/w&x=y.log", "p", "p",
@@ -319,6 +356,9 @@ func init() {
 					case 0, 1, 2:
 						ops = append(ops, "cf:"+p)
 					case 3, 4:
+						if g.r.chance(1, 4) {
+							ops = append(ops, "pp")
+						}
 						ops = append(ops, "p")
 					case 5, 6:
 						ops = append(ops, fmt.Sprintf("ap:%s:%s", p, hx(fmt.Sprintf("n%d", j))))
